@@ -86,6 +86,15 @@ func (g *gen) risky(stmts string) {
 // maybeRisky wraps the statements when they may panic; statements known to be safe are
 // emitted bare half of the time (exercises direct access to the locals of the frame
 // besides access through a closure).
+// riskyAny is risky() for operations whose run-time error the shared recorder cannot
+// classify whatever the wording (make with len > cap: reflect says "len > cap", the
+// runtime "makeslice: cap out of range"): only whether a panic happened is recorded.
+func (g *gen) riskyAny(stmts string) {
+	g.rtag++
+	tag := fmt.Sprintf("r%d", g.rtag)
+	g.emit("func() {\n\tdefer func() { rec.E(%q, recover() != nil) }()\n%s}()", tag, progen.Indent(stmts))
+}
+
 func (g *gen) maybeRisky(mayPanic bool, stmts string) {
 	if mayPanic || g.Bool("wrap-safe") {
 		g.risky(stmts)
@@ -99,16 +108,36 @@ func (g *gen) pickScalar(label string) *elem {
 	return g.scalars[g.Pick(len(g.scalars), label)]
 }
 
-func (g *gen) val(e *elem) string { return e.lits[g.Pick(len(e.lits), "val")] }
+func (g *gen) val(e *elem) string {
+	x := e.lits[g.Pick(len(e.lits), "val")]
+	if strings.HasPrefix(x, "[...]") {
+		if Avoid.EllipsisHint {
+			OnExcluded("F-C08-9")
+			return e.lits[0]
+		}
+		g.Tag("literal:ellipsis-array-as-element")
+	}
+	return x
+}
 func (g *gen) tval(e *elem) string {
 	return e.typed(g.val(e))
 }
 
-// AvoidNonInt is switched on while finding F-C08-1 is listed as known: index
-// expressions used as places, slice bounds and make sizes of an integer type other
-// than int are rejected by gomacro; the generator then renders them as int and counts.
-var AvoidNonInt bool
-var excludedNonInt func()
+// Avoid holds the exclusions-by-construction of the known findings of C08; a field is
+// switched on (TestMain) while the finding is listed as "known" in known_findings.json.
+// OnExcluded is called with the finding id every time the generator steps around one.
+var Avoid struct {
+	NonInt        bool // F-C08-1: place index / slice bound / make size of integer type other than int is rejected
+	CopyResult    bool // F-C08-2: the result of copy() cannot be used
+	NilArrayCap   bool // F-C08-3: cap(p) with p a nil pointer to array panics
+	RangePtrArray bool // F-C08-4: range over a pointer to array iterates over a copy made at loop entry
+	IdentityOp    bool // F-C08-5: x op= c with c the identity of op is dropped (no map insert, no nil-map / nil-pointer panic)
+	NilIfaceKey   bool // F-C08-6: m[nil] on a map with interface key panics
+	MakeLenCap    bool // F-C08-7: make([]T, len, cap) with len < 0 or len > cap: wrong panic or none
+	NilDerefValue bool // F-C08-8: *p as a value, p a nil pointer to array or struct, yields an invalid value instead of panicking
+	EllipsisHint  bool // F-C08-9: [...]T{...} where the context supplies the expected type is typed [0]T
+}
+var OnExcluded = func(id string) {}
 
 // intForm renders the int value v either as a literal (constant path of the
 // interpreter) or through a fresh local variable of type int, uint8, int64 or uint
@@ -134,10 +163,8 @@ func (g *gen) intForm(v int, constOK bool, site string) string {
 			typ = "uint"
 		}
 	}
-	if typ != "" && site != "read" && AvoidNonInt {
-		if excludedNonInt != nil {
-			excludedNonInt()
-		}
+	if typ != "" && site != "read" && Avoid.NonInt {
+		OnExcluded("F-C08-1")
 		typ = ""
 	}
 	if typ != "" {
@@ -578,8 +605,14 @@ func (g *gen) copyOp(s *slv, vars []*slv) {
 			g.Tag("copy:maybe-aliased")
 		}
 	}
-	g.emit("%s := copy(%s, %s)", n, dst, src)
-	g.emit("rec.E(%d, %s)", g.Ev(), n)
+	if Avoid.CopyResult {
+		OnExcluded("F-C08-2")
+		g.emit("copy(%s, %s)", dst, src)
+	} else {
+		g.Tag("copy:result-used")
+		g.emit("%s := copy(%s, %s)", n, dst, src)
+		g.emit("rec.E(%d, %s)", g.Ev(), n)
+	}
 	for _, v := range vars {
 		g.recSlice(v)
 	}
@@ -744,8 +777,14 @@ func (g *gen) arrayScenario() {
 			if n >= 2 {
 				i, v := g.Local("i"), g.Local("v")
 				tgt := g.OneOf("array-range-tgt", a, p)
-				g.Tag("range:" + tgtKind(tgt, p) + "-with-write")
-				g.emit("for %s, %s := range %s {\n\t%s[%d] = %s\n\trec.E(%d, %s, %s)\n}", i, v, tgt, a, n-1, g.val(e), g.Ev(), i, v)
+				if tgt == p && Avoid.RangePtrArray {
+					OnExcluded("F-C08-4")
+					g.Tag("range:array-ptr")
+					g.emit("for %s, %s := range %s {\n\trec.E(%d, %s, %s)\n}", i, v, tgt, g.Ev(), i, v)
+				} else {
+					g.Tag("range:" + tgtKind(tgt, p) + "-with-write")
+					g.emit("for %s, %s := range %s {\n\t%s[%d] = %s\n\trec.E(%d, %s, %s)\n}", i, v, tgt, a, n-1, g.val(e), g.Ev(), i, v)
+				}
 				recAll()
 			}
 		default:
@@ -758,7 +797,13 @@ func (g *gen) arrayScenario() {
 		q := g.Local("q")
 		g.Tag("nil-deref:array-ptr")
 		g.emit("var %s *%s", q, at)
-		g.emit("rec.E(%d, len(%s), cap(%s), %s == nil)", g.Ev(), q, q, q)
+		if Avoid.NilArrayCap {
+			OnExcluded("F-C08-3")
+			g.emit("rec.E(%d, len(%s), %s == nil)", g.Ev(), q, q)
+		} else {
+			g.Tag("len-cap:nil-array-ptr")
+			g.emit("rec.E(%d, len(%s), cap(%s), %s == nil)", g.Ev(), q, q, q)
+		}
 		switch g.Pick(5, "nil-array-op") {
 		case 0:
 			g.risky(fmt.Sprintf("rec.E(%d, %s[%s])", g.Ev(), q, g.intForm(0, n > 0, "read")))
@@ -767,7 +812,13 @@ func (g *gen) arrayScenario() {
 		case 2:
 			g.risky(fmt.Sprintf("rec.E(%d, %s[:])", g.Ev(), q))
 		case 3:
-			g.risky(fmt.Sprintf("rec.E(%d, *%s)", g.Ev(), q))
+			if Avoid.NilDerefValue {
+				OnExcluded("F-C08-8")
+				g.risky(fmt.Sprintf("rec.E(%d, len(*%s))", g.Ev(), q))
+			} else {
+				g.Tag("nil-deref:whole-array-value")
+				g.risky(fmt.Sprintf("rec.E(%d, *%s)", g.Ev(), q))
+			}
 		default:
 			i := g.Local("i")
 			g.risky(fmt.Sprintf("for %s := range %s {\n\trec.E(%d, %s)\n}", i, q, g.Ev(), i))
@@ -833,7 +884,7 @@ func (g *gen) stringScenario() {
 			g.Tag("string:bytes-roundtrip")
 			b := g.Local("b")
 			g.emit("%s := []byte(%s)", b, s)
-			g.emit("rec.E(%d, len(%s), string(%s), []rune(%s))", g.Ev(), b, b, s)
+			g.emit("rec.E(%d, len(%s), string(%s), len([]rune(%s)))", g.Ev(), b, b, s)
 			if n > 0 {
 				g.emit("%s[0] = 'X'\nrec.E(%d, string(%s), %s)", b, g.Ev(), b, s)
 			}
@@ -887,6 +938,10 @@ func (g *gen) mapScenario() {
 		}
 		var items []string
 		for i := 0; i < n; i++ {
+			if perm[i] == "nil" && Avoid.NilIfaceKey {
+				OnExcluded("F-C08-6")
+				continue
+			}
 			items = append(items, perm[i]+": "+g.val(v))
 		}
 		g.emit("%s := %s{%s}", m, mt, strings.Join(items, ", "))
@@ -895,6 +950,14 @@ func (g *gen) mapScenario() {
 	nops := g.Int(3, 8, "map-nops")
 	for i := 0; i < nops; i++ {
 		key := g.val(k)
+		if key == "nil" {
+			if Avoid.NilIfaceKey {
+				OnExcluded("F-C08-6")
+				key = k.lits[0]
+			} else {
+				g.Tag("map:nil-interface-key")
+			}
+		}
 		switch g.Pick(10, "map-op") {
 		case 0, 1:
 			if isNil {
@@ -930,11 +993,11 @@ func (g *gen) mapScenario() {
 				if op == "++" || op == "--" {
 					g.maybeRisky(isNil, fmt.Sprintf("%s[%s]%s", m, key, op))
 				} else {
-					g.maybeRisky(isNil, fmt.Sprintf("%s[%s] %s %s", m, key, op, g.val(v)))
+					g.maybeRisky(isNil, fmt.Sprintf("%s[%s] %s %s", m, key, op, g.opVal(v, op)))
 				}
 			case v.typ == "string":
 				g.Tag("map:op-assign")
-				g.maybeRisky(isNil, fmt.Sprintf("%s[%s] += %s", m, key, g.val(v)))
+				g.maybeRisky(isNil, fmt.Sprintf("%s[%s] += %s", m, key, g.opVal(v, "+=")))
 			case v.typ == "[]int":
 				g.Tag("map:append-to-elem")
 				g.maybeRisky(isNil, fmt.Sprintf("%s[%s] = append(%s[%s], 7)", m, key, m, key))
@@ -977,6 +1040,20 @@ func (g *gen) mapScenario() {
 	if g.Chance(1, 4, "iface-key") {
 		g.ifaceKeyMap()
 	}
+}
+
+// opVal draws the right operand of an op-assignment.
+func (g *gen) opVal(v *elem, op string) string {
+	x := g.val(v)
+	identity := (op == "*=" && x == "1") || (op != "*=" && (x == "0" || x == `""`))
+	if identity {
+		if Avoid.IdentityOp {
+			OnExcluded("F-C08-5")
+			return v.lits[0] // never an identity element
+		}
+		g.Tag("map:op-assign-identity-operand")
+	}
+	return x
 }
 
 func (g *gen) ifaceKeyMap() {
@@ -1058,7 +1135,13 @@ func (g *gen) structScenario() {
 			case 2:
 				g.risky(fmt.Sprintf("rec.E(%d, %s.X)", g.Ev(), np))
 			case 3:
-				g.risky(fmt.Sprintf("rec.E(%d, *%s)", g.Ev(), np))
+				if Avoid.NilDerefValue {
+					OnExcluded("F-C08-8")
+					g.risky(fmt.Sprintf("rec.E(%d, (*%s).N)", g.Ev(), np))
+				} else {
+					g.Tag("nil-deref:whole-struct-value")
+					g.risky(fmt.Sprintf("rec.E(%d, *%s)", g.Ev(), np))
+				}
 			default:
 				g.risky(fmt.Sprintf("%s.A[1] = 3", np))
 			}
@@ -1156,7 +1239,12 @@ func (g *gen) makeScenario() {
 		ls := g.intForm(l, true, "make")
 		cs := g.intForm(c, !(isLit(ls) && c < l), "make")
 		g.ntMark("make-len-cap-adjacent")
-		g.maybeRisky(l < 0 || c < l, fmt.Sprintf("%s = make([]%s, %s, %s)", s, e.typ, ls, cs))
+		if (l < 0 || c < l) && Avoid.MakeLenCap {
+			OnExcluded("F-C08-7")
+			g.emit("_, _ = %s, %s", ls, cs)
+		} else {
+			g.riskyAny(fmt.Sprintf("%s = make([]%s, %s, %s)", s, e.typ, ls, cs))
+		}
 	}
 	g.emit("rec.E(%d, %s, %s == nil)", g.Ev(), s, s)
 	if g.Bool("make-new") {
